@@ -57,6 +57,17 @@ Theorem C02_grease_off : forall c m, grease 0 c m = Ok m.
 Proof. reflexivity. Qed.
 Print Assumptions C02_grease_off.
 
+(* ---- tie to the source: the two deliberate faults of src/grease.rs as translated on this run (the
+   64 random signature bytes and the sampled index permutation are inputs) build the messages the
+   model builds, or both fail ---- *)
+Require RV.Model.GenSupport RV.Gen.Code RV.Proofs.CodeGrease.
+Theorem C02_translated_grease_is_model :
+  forall rnd (perm : list nat) m,
+  ok_opt (RV.Gen.Code.gen_corrupt_response_signature rnd m) = ok_opt (corrupt_response_signature rnd m)
+  /\ ok_opt (RV.Gen.Code.gen_randomly_order_tags (map N.of_nat perm) m) = ok_opt (randomly_order_tags perm m).
+Proof. exact RV.Proofs.CodeGrease.gen_grease_model. Qed.
+Print Assumptions C02_translated_grease_is_model.
+
 (* ---- tie to the source: the integer literals of the functions this property's model stands for
    (private constants, bounds, unit factors; the files are SiteMap.files_C02) are today the ones the
    model was written against. Gen/Sites.v num_literals is regenerated from /repo on every run; a
